@@ -96,7 +96,7 @@ def run(ctx):
                                  text='Strain(voigt=True) returns 2x the engineering shear (voigt=False returns gamma, not eps_xy); Stress and the '
                                       'energy identity inherit the factor; pinned by tests/test_element_operations.py::test_pure_shear'))
     vlib.audit(ctx)
-    if not vlib.ensure_static(ctx):
+    if not vlib.ensure_static(ctx, ['theories/Props/C12.vo', 'theories/Base/SpCanon.vo', 'theories/Base/Cmp.vo', 'theories/Model/ElemOps.vo']):
         return
     vlib.check_props(ctx)
 
